@@ -222,6 +222,21 @@ def decoder_limits(r, F):
         r.check(bool(be), 'int|loop', di.file, 'decode_int has a continuation loop')
         pre = core.edges_where(F, di, lambda sw: core.cmp_of(sw) is not None and core.cmp_of(sw)[0] in ('Lt', 'Gt') and any(c[1] in (1, 8) for c in core.consts_in(sw.subject)), lambda l: l is True)
         r.check(bool(pre), 'int|prefix-range', di.file, 'prefix_size outside 1..=8 is rejected')
+        # the verdict does not depend on where the input ends: once the counter has been advanced, the shortfall answer
+        # (NeedMore) is reachable only past the `bytes == MAX_BYTES` test taken on its false side -- an over-long integer
+        # whose fifth octet is the last one available is IntegerOverflow now, not NeedMore now and IntegerOverflow on
+        # resumption (seeded C11-g)
+        bl = [l for l in range(len(di.locals)) if di.local_name(l) == 'bytes']
+        incs = [bi for bi, si, pl, rv, ln in di.stmts() if bl and pl == [bl[0]] and strip(di.expr_of_rvalue(rv))[0] == 'bin' and strip(di.expr_of_rvalue(rv))[1] in ('Add', 'AddWithOverflow', 'AddUnchecked')]
+        below = core.edges_where(F, di, lambda sw: core.cmp_of(sw) is not None and core.cmp_of(sw)[0] == 'Eq' and any(c[1] == mb for c in core.consts_in(sw.subject)), lambda l: l is False)
+        below += core.edges_where(F, di, lambda sw: core.cmp_of(sw) is not None and core.cmp_of(sw)[0] == 'Ge' and any(c[1] == mb for c in core.consts_in(sw.subject)), lambda l: l is False)
+        nm = [bi for bi, si, pl, rv, ln in di.stmts() if rv[0] == 'aggr' and rv[2].endswith('DecoderError::NeedMore')]
+        ok = bool(incs) and bool(below) and bool(nm)
+        for i in incs:
+            reach = di.reachable(di.succ[i], cut_edges=below)
+            if any(x in reach for x in nm):
+                ok = False
+        r.check(ok, 'int|shortfall-below-limit', di.file, 'after the octet counter is advanced, NeedMore is answered only past the counter test (bytes != MAX_BYTES): the verdict on an over-long integer does not depend on where the input is cut')
     d = r.fn(DEC + 'Decoder::decode')
     if d:
         # can_resize = false before each field decode; size update refused when !can_resize
@@ -363,6 +378,34 @@ def table_accounting(r, F):
             ok = bool(edges) and bool(sites) and all(f.dominated_by_edges(x, edges) for x in sites) and all(o in (want, core._ORD_ALL - want) for o in regs.values())
             r.check(ok, 'table|boundary|%s' % fname.split('::')[-1], f.loc(bi),
                     '%s: %s exactly when %s {%s} max_size (edges: %s)' % (fname.split('::')[-1], action, 'size + len' if lhs_n == 2 else 'size', ','.join(sorted(want)), sorted(','.join(sorted(o)) for o in regs.values())))
+    # RFC 7541 section 4.4: eviction goes on until the (prospective) size fits *or the table is empty* -- an entry larger than the
+    # whole table empties it.  Every return of the two eviction loops is reached through the fitting side of the comparison
+    # or through the None arm of pop_back / back (seeded C11-f: an early return for an entry that can never fit)
+    for fname, lhs_n in ((T + '::reserve', 2), (T + '::consolidate', 1)):
+        f = F.fn(fname)
+        if not f:
+            continue
+        allowed = []
+        for bi, sw in core.all_switches(F, f).items():
+            for flip in (False, True):
+                cr = core.cmp_regions(sw, flip)
+                if cr is None:
+                    continue
+                a, b, regs = cr
+                ls = core.additive_leaves(a)
+                if ls is None or not (strip(b)[0] == 'field' and core.last_field(strip(b)) == (T, 'max_size')):
+                    continue
+                if len(ls) != lhs_n or not any(strip(l)[0] == 'field' and core.last_field(strip(l)) == (T, 'size') for l in ls):
+                    continue
+                allowed += [(bi, s2) for s2, o in regs.items() if 'gt' not in o]
+            if sw.kind == 'variant' and any(x[0] == 'call' and x[1].endswith(('VecDeque::pop_back', 'VecDeque::back')) for x in walk(sw.subject)):
+                allowed += [(bi, s2) for s2, l in sw.labels.items() if isinstance(l, frozenset) and 'None' in l and 'Some' not in l]
+        rets = f.returns()
+        ok = bool(allowed) and bool(rets) and all(f.dominated_by_edges(x, allowed) for x in rets)
+        wit = None
+        if not ok and allowed and rets:
+            wit = core.compress_path(f, f.path_between(0, rets[0], cut_edges=allowed) or [])
+        r.check(ok, 'table|evict-until-fits|' + fname.split('::')[-1], f.file, '%s returns only once %s <= max_size or the table is empty (an entry larger than the table empties it, RFC 7541 section 4.4)' % (fname.split('::')[-1], 'size + len' if lhs_n == 2 else 'size'), witness=wit)
     sm = r.fn(T + '::set_max_size')
     if sm:
         r.check(bool(sm.calls_to(T + '::consolidate')), 'table|set_max_size', sm.file, 'set_max_size evicts down to the new limit (consolidate)')
